@@ -91,7 +91,10 @@ def symbolize_state(sys, tag='s_', attr_bits=8):
             if isinstance(leaf, Reg) and a == 'value':
                 leaf.value = leaf.q.value          # representation invariant: value == q
                 continue
-            if isinstance(cur, bool):
+            if isinstance(cur, (bool, SymBool)):
+                x, v = core.fresh_bool('%s%s.%s' % (tag, path, a))       # a flag: either value
+                setattr(leaf, a, x)
+                vars_['%s.%s' % (path, a)] = v
                 continue
             if isinstance(cur, (int, SymInt)):
                 rng = STATE_RANGES.get(type(leaf).__name__, {}).get(a)
@@ -125,9 +128,11 @@ def load_concrete_state(sys, values):
             if isinstance(leaf, Reg) and a == 'value':
                 leaf.value = leaf.q.value
                 continue
-            if isinstance(cur, bool):
-                continue
             k = '%s.%s' % (path, a)
+            if isinstance(cur, bool):
+                if k in values:
+                    setattr(leaf, a, bool(values[k]))
+                continue
             if isinstance(cur, int) and k in values:
                 setattr(leaf, a, values[k])
             elif isinstance(cur, list):
@@ -140,8 +145,9 @@ def snapshot_all(sys):
     for w in symsim.all_wires(sys):
         r['w:' + w.getFullPath()] = w.value
     for leaf in sys.allLeaves():
+        flags = attrs_assigned_in_clock(type(leaf)) if leaf.isClockable() else ()
         for k, v in leaf.__dict__.items():
-            if isinstance(v, (int, SymInt, SymBool)) and not isinstance(v, bool):
+            if isinstance(v, (int, SymInt, SymBool)) and (not isinstance(v, bool) or k in flags):
                 r['a:%s.%s' % (leaf.getFullPath(), k)] = v
             elif isinstance(v, list) and v and all(isinstance(e, (int, SymInt, SymBool)) for e in v):
                 for j, e in enumerate(v):
